@@ -68,3 +68,25 @@ Proof.
   { clear -HF. induction HF as [|p ps Hp _ IH]; cbn [filter]; [reflexivity|]. rewrite Hp. exact IH. }
   rewrite Hnil in Hq. cbn [exchange_posts] in Hq. injection Hq as _ <-. reflexivity.
 Qed.
+
+(* the balance scan as well: postings that do not balance contribute nothing, and whether an elided amount was met
+   (and ETwoNulls) is decided by the postings that balance alone; only the position recorded for it shifts *)
+Definition same_presence {A B} (x : option A) (y : option B) : Prop :=
+  match x, y with Some _, Some _ => True | None, None => True | _, _ => False end.
+
+Lemma scan_posts_skips_nonbalancing ord : forall ps i i' bal nul nul' b n,
+  same_presence nul nul' ->
+  scan_posts ord ps i bal nul = Ok (b, n) ->
+  exists n', scan_posts ord (filter must_balance ps) i' bal nul' = Ok (b, n') /\ same_presence n n'.
+Proof.
+  induction ps as [|p ps IH]; intros i i' bal nul nul' b n Hs H; cbn [scan_posts filter] in *.
+  - injection H as <- <-. exists nul'. split; [reflexivity | exact Hs].
+  - destruct (must_balance p) eqn:Hmb; cbn [negb] in H.
+    + cbn [scan_posts]. rewrite Hmb. cbn [negb].
+      destruct (balancing_amount p) as [a|].
+      * destruct (add_or_set ord bal (unkeep a)) as [bal1|e]; [cbn [bind] in *|discriminate].
+        exact (IH _ _ _ _ _ _ _ Hs H).
+      * destruct nul as [k|], nul' as [k'|]; cbn [same_presence] in Hs; try contradiction; [discriminate|].
+        apply (IH (S i) (S i') bal (Some i) (Some i') b n); [exact I | exact H].
+    + exact (IH _ _ _ _ _ _ _ Hs H).
+Qed.
